@@ -368,10 +368,10 @@ def install(I):
         if ci is not None:
             return PyList(ci)
         if isinstance(v, SymSeq):
-            return SymSeq(v.t, "list")
+            return SymList(v.t)
         if isinstance(v, tuple) and v[0] in ("values", "keys") and isinstance(v[1], SymMap):
-            return SymSeq(v[1].vals if v[0] == "values" else v[1].keys, "list")
-        return SymSeq(I.as_seq(v), "list")
+            return SymList(v[1].vals if v[0] == "values" else v[1].keys)
+        return SymList(I.as_seq(v))
 
     @reg(set)
     def _set(I, args, kw, star, dstar, node):
@@ -657,6 +657,30 @@ def OPERATOR_FUNCS_():
 
 def value_method(I, obj, name, args, kw, node):
     """Methods of engine container values."""
+    if isinstance(obj, SymList) and name in ("append", "extend", "pop", "insert", "clear"):
+        if I.pure_depth:
+            raise Unsupported("mutation inside lifted body")
+        if name == "append":
+            obj.t = z3.Concat(obj.t, z3.Unit(I.lift(args[0])))
+            return Conc(None)
+        if name == "extend":
+            obj.t = z3.Concat(obj.t, I.as_seq(args[0]))
+            return Conc(None)
+        if name == "clear":
+            obj.t = z3.Empty(S)
+            return Conc(None)
+        if name == "pop" and (not args or (isinstance(args[0], Conc) and args[0].obj in (0, -1))):
+            if not I.decide(z3.Length(obj.t) > 0):
+                raise PyRaise(SymExc(IndexError, (), origin="pop from empty list"))
+            first = bool(args) and args[0].obj == 0
+            el = z3.Const(I.fresh_name(node, "popped"), V)
+            rest = z3.Const(I.fresh_name(node, "rest"), S)
+            I.pcs.append(obj.t == (z3.Concat(z3.Unit(el), rest) if first else z3.Concat(rest, z3.Unit(el))))
+            for h in getattr(I, "seq_split_hooks", ()):     # ground instances of fold axioms for the split sequence
+                h(I, obj.t, el, rest, first)
+            obj.t = rest
+            return SymV(el)
+        raise Unsupported(f"list.{name} on a list of symbolic length")
     if isinstance(obj, PyList):
         if name == "append":
             if I.pure_depth:
